@@ -31,10 +31,26 @@ def brute_conv2d(h, w, ci, co, kh, kw, sh, sw, dh, dw, pad, groups):
   return n, ho, wo
 
 
+def gen_args(lyr, ishape):
+  """the arguments of the regenerated get_operation_count (coq/gen/OpCountGen.v) for this layer"""
+  ish = ishape[0] if isinstance(ishape, list) else ishape
+  zl = lambda t: "[" + "; ".join(str(-1 if d is None else int(d)) for d in t) + "]"
+  try:
+    osh = zl(lyr.compute_output_shape(ish))
+  except Exception:  # pylint: disable=broad-except
+    osh = "[]"
+  ws = lyr.get_weights()
+  wsh = zl(ws[0].shape) if ws else "[]"
+  pool = f"(Some {zl(lyr.pool_size)})" if hasattr(lyr, "pool_size") else "None"
+  return f'gen_opcount "{lyr.__class__.__name__}" {zl(ish)} {osh} {wsh} {pool} {int(getattr(lyr, "groups", 1))}'
+
+
 def main():
   rep = vlib.Report(PROP, "proof")
-  info = vlib.build_obligations(PROP)
-  errs = rep.obligations(info, "coqc -Q coq/theories QV coq/theories/Properties/C19.v")
+  from translate import opcountgen
+  gen = opcountgen.emit(vlib.GEN)
+  info = vlib.build_obligations(PROP, gen_files=[gen], extra_files=[os.path.join(vlib.COQ, "theories", "Link", "OpCountLink.v")])
+  errs = rep.obligations(info, "python3 tools/translate/opcountgen.py coq/gen && coqc coq/gen/OpCountGen.v && coqc coq/theories/Link/OpCountLink.v && coqc coq/theories/Properties/C19.v")
   for e in errs:
     rep.violation("obligation-" + os.path.basename(e["file"]), "proof obligation no longer checks: " + e["error"][-400:],
                   {"file": e["file"]}, no_input=True)
@@ -48,7 +64,7 @@ def main():
                      "Coq extent function; energy_estimate on synthetic layer maps over memory options: non-negativity, documented entry "
                      "functions, total vs entries, extract_energy_sum. distinct = distinct (layer class, geometry) resp. (map, options)")
   n = 80 if rep.tier == "quick" else 900
-  texts, items = [], []
+  texts, items, gens = [], [], []
   qb = "quantized_bits(4,0,1)"
   for i in range(n):
     kind = ["conv2d", "conv2d", "conv1d", "depthwise", "dense", "avgpool", "gap", "add", "flatten", "kconv2d"][i % 10]
@@ -149,11 +165,26 @@ def main():
         got = qtools_util.get_operation_count(lyr, ishape)
         items.append((dict(kind=kind, h=h, w=w, c=ci), got, h * w * ci, [got], None))
         texts.append(f"[oc_elementwise [{h}; {w}; {ci}]]")
+      if len(items) > len(gens):
+        gens.append(gen_args(lyr, ishape))
     except Exception as e:  # pylint: disable=broad-except
       rep.violation(f"opcount-raises-{kind}-{i}", f"get_operation_count raised {type(e).__name__}: {e}", {"kind": kind})
       continue
   body = HEADER + "".join(f"Eval vm_compute in {t}.\n" for t in texts)
   outs = vlib.coq_eval(PROP + "_counts", body)
+  # translator validation: the regenerated get_operation_count evaluated in Coq on the same layers
+  if not errs:
+    gbody = ("From Coq Require Import ZArith String List.\nFrom QVGen Require Import OpCountGen.\nImport ListNotations.\n"
+             "Open Scope Z_scope.\nOpen Scope string_scope.\n" + "".join(f"Eval vm_compute in [{t}].\n" for t in gens))
+    gouts = vlib.coq_eval(PROP + "_gen_counts", gbody)
+    nt = 0
+    for (geo, got, _t, _w, _f), t, l in zip(items, gens, gouts):
+      if l != [got]:
+        rep.violation(f"translator-mismatch-{geo['kind']}", f"{geo}: get_operation_count gives {got} but its translation gives {l} ({t})",
+                      {"geometry": geo, "impl": got, "translation": l})
+      else:
+        nt += 1
+    rep.note(translator_validation=dict(layers=len(gens), equal=nt))
   n_true = 0
   for (geo, got, true, want_model, fid), l in zip(items, outs):
     rep.count(tuple(sorted(geo.items())))
